@@ -1795,7 +1795,7 @@ local function visitor_Array_KeyIndex(_, node, objtype, _, indexnode)
         end
         if objtype.length ~= 0 and indexvalue >= bn.new(objtype.length) then
           indexnode:raisef("index %s is out of bounds, array maximum index is %d",
-            indexvalue:todecint(), objtype.length - 1)
+            tostring(indexvalue), objtype.length - 1)
         end
       end
       attr.type = objtype.subtype
